@@ -32,7 +32,7 @@ pub fn judge(input: &[(u64, bool)], capacity: usize) -> Result<(), (String, Stri
     };
     // entries handed back must be the very entries handed in (rank/flag unchanged)
     for e in plan.to_evict.iter().chain(plan.to_move_back.iter()) {
-        match items.iter().find(|i| i.id == e.id) {
+        match items.get(e.id) {
             Some(i) if i.rank == e.rank && i.accessed == e.acc => {}
             _ => return Err(("planner:invented".into(), format!("plan contains an entry that is not an input entry: {:?}", e))),
         }
